@@ -16,6 +16,22 @@ import common
 from c06 import mkdt, us_of, BASE_US  # noqa: F401  (same instant tokens as C06)
 
 TICK = 1_000_000
+# sentinel instants: the library's defaults for an open-ended / since-forever TimeInterval (UTC representation only:
+# any other offset overflows datetime's range)
+MIN_US = us_of(datetime.min)
+MAX_US = us_of(datetime.max)
+_EDGE = 2 * 86_400 * TICK
+
+
+def clip(v):
+    return max(MIN_US, min(MAX_US, v))
+
+
+def near_sentinel(v):
+    """within two days of datetime.min / datetime.max: only the UTC / naive representation exists"""
+    return v < MIN_US + _EDGE or v > MAX_US - _EDGE
+
+
 VALS = ['red', 'blue', 7, 2.5, None, ('a', 1), False]
 
 
@@ -61,6 +77,11 @@ def mk_dt(dt):
     if dt is None:
         return None
     s, e = dt
+    if s != e and (s == MIN_US or e == MAX_US):
+        # the library's own default bounds: TimeInterval(start) is open-ended, TimeInterval(end=e) started "forever ago"
+        if s == MIN_US and e == MAX_US:
+            return TimeInterval()
+        return TimeInterval(mkdt(str(s))) if e == MAX_US else TimeInterval(end=mkdt(str(e)))
     if s == e and (s // TICK) % 2 == 0:
         return mkdt(str(s))               # exercise the datetime -> TimeInterval(dt, dt) conversion
     return TimeInterval(mkdt(str(s)), mkdt(str(e)))
